@@ -152,6 +152,10 @@ def run(prog: Program, col: Collector, tier: str, refs: Optional[Refs] = None, c
     col.check(ok, f"{ti.fq}::output", "output = Array[dtype, data.shape[len(inputs):]] with the inputs that are stored",
               f"{why}: the declared event shape is not the array's shape after the batch dimensions of the stored inputs", ti.loc(outs[0]) if outs else ti.loc())
 
+    # ---------------------------------------------------------------- R06.6
+    col.rule("R06.6", "a Slice's values lie in its declared output Bint[dtype]: stop is clamped to dtype before construction", floor=1)
+    _slice_bound(prog, col, refs)
+
     # ---------------------------------------------------------------- R06.5
     col.rule("R06.5", "dimension parameters are normalised modulo the rank in every branch before use as indices", floor=2)
     _axis_normalisation(prog, col, refs, cat)
@@ -424,6 +428,54 @@ def _find_domain_calls(prog: Program, col: Collector, refs: Refs, cat: Catalogue
         col.check(in_order and covers, construct, "same call shape as the lazy constructor: own op, operand outputs in parameter order",
                   f"find_domain is called with operands {names} but the rule's operands are {term_params} in that order: the eager result is typed differently from the lazy term "
                   "(non-commutative typing rules: floordiv, getitem, matmul, pow, shifts)", mod.loc(call))
+
+
+def _slice_bound(prog: Program, col: Collector, refs: Refs):
+    """Slice(name, start, stop, step, dtype) denotes i -> start + step*i for i < ceil((stop-start)/step) and declares the output
+    Bint[dtype]; its largest value is < stop, so `stop <= dtype` is what keeps the values inside the declared range.  The
+    metaclass (or the constructor) must establish it on every path: `stop = min(dtype, ...)` or an assertion."""
+    from ..cfg import CFG
+    from .algebra import _reaching
+    sm = prog.funcs.get("funsor.terms::SliceMeta.__call__")
+    si = prog.funcs.get("funsor.terms::Slice.__init__")
+    if sm is None or si is None:
+        col.unresolved("funsor.terms::SliceMeta.__call__", "Slice metaclass / constructor not found", "funsor/terms.py")
+        return
+    # an assertion in the constructor also does
+    fields = si.positional[1:]
+    if len(fields) == 5:
+        stop_p, dtype_p = fields[2], fields[4]
+        for a in [n for n in walk_no_nested(si.node) if isinstance(n, ast.Assert)]:
+            for c in ast.walk(a.test):
+                if isinstance(c, ast.Compare) and len(c.ops) == 1 and ((isinstance(c.ops[0], ast.LtE) and norm(c.left) == stop_p and norm(c.comparators[0]) == dtype_p)
+                                                                    or (isinstance(c.ops[0], ast.GtE) and norm(c.left) == dtype_p and norm(c.comparators[0]) == stop_p)):
+                    col.ok(f"{si.fq}::assert {stop_p} <= {dtype_p}", "the constructor asserts stop <= dtype", si.loc(a))
+                    return
+    calls = [n for n in walk_no_nested(sm.node) if isinstance(n, ast.Call) and isinstance(n.func, ast.Attribute) and n.func.attr == "__call__" and len(n.args) == 5]
+    if not calls:
+        col.unresolved(f"{sm.fq}::construction", "no super().__call__(name, start, stop, step, dtype) found", sm.loc())
+        return
+    cfg = CFG(sm.node)
+    for c in calls:
+        stop_a, dtype_a = c.args[2], c.args[4]
+        st = c
+        while not isinstance(st, ast.stmt):
+            st = sm.module.parent.get(st)
+        construct = f"{sm.fq}::{norm(c)}"
+        if not (isinstance(stop_a, ast.Name) and isinstance(dtype_a, ast.Name)):
+            col.unresolved(construct, "stop / dtype are not plain locals", sm.loc(c))
+            continue
+        defs = [n for n in walk_no_nested(sm.node) if isinstance(n, ast.Assign) and any(stop_a.id in [x.id for x in ast.walk(t) if isinstance(x, ast.Name)] for t in n.targets)]
+        reach = _reaching(cfg, defs, st)
+        bad = []
+        for d in reach:
+            v = d.value
+            clamped = isinstance(v, ast.Call) and isinstance(v.func, ast.Name) and v.func.id == "min" and any(isinstance(a, ast.Name) and a.id == dtype_a.id for a in v.args)
+            if not clamped:
+                bad.append(d)
+        col.check(not bad and bool(reach), construct, f"every definition of `{stop_a.id}` that reaches the construction is min({dtype_a.id}, ...)",
+                  f"`{stop_a.id}` reaches the construction as `{norm(bad[0].value) if bad else '?'}`, not clamped to `{dtype_a.id}`: Slice(name, 5, 20, 1, 10) declares output Bint[10] "
+                  "but takes the values 5..19", sm.loc(bad[0]) if bad else sm.loc(c))
 
 
 def _ground_rule_dtypes(prog: Program, col: Collector, refs: Refs, cat: Catalogue):
